@@ -3194,6 +3194,133 @@ def r_autoref_image(P, R):
 r_autoref_image.NAME = 'R-ARGS(autoref image model)'
 
 
+def bdd_to_mdd_model(P, R):
+    """`dd.mdd.bdd_to_mdd(bdd, dvars)` interpreted with everything it
+    calls (collection, reordering by real swaps, the MDD class) on
+    managers over three bits grouped into a one-bit and a two-bit integer
+    variable, for both integer orders, three initial bit orders and five
+    sets of referenced functions - among them a node inside a zone that
+    is referenced from inside and from above the zone.  C15: every
+    referenced node is mapped; the MDD reference of each mapped node has,
+    on each integer assignment, the value of the BDD node on the bits of
+    that assignment (first listed bit least significant); the referenced
+    BDD functions are what they were."""
+    import itertools
+    f = P.func('dd.mdd.bdd_to_mdd')
+    stubs = ClassStubs(P, 'dd.bdd.BDD', extra={
+        '_request_reordering': lambda m, c, a, k: None,
+        'getEffectiveLevel': lambda m, c, a, k: 100})
+    resolver = interp.ModuleEnv(P, 'dd.mdd', stubs)
+    names = ['x0', 'x1', 'y0']
+    rows = list(itertools.product((False, True), repeat=3))
+    tfn = [lambda x0, x1, y0: (x1 if y0 else (x0 and x1)),
+           lambda x0, x1, y0: x0 != x1,
+           lambda x0, x1, y0: y0 and not x1,
+           lambda x0, x1, y0: x1]
+    tts = [tuple(bool(fn(*r)) for r in rows) for fn in tfn]
+    points = list(itertools.product(range(4), range(2)))   # (x, y)
+    prm = list(f.params)
+    problems = dict()
+    n = 0
+
+    def bits_of(x, y):
+        return (bool(x & 1), bool(x & 2), bool(y & 1))
+    try:
+        for xl, yl in ((1, 0), (0, 1)):
+            dvars = {'y': {'level': yl, 'len': 2, 'bitnames': ['y0']},
+                     'x': {'level': xl, 'len': 4,
+                           'bitnames': ['x0', 'x1']}}
+            by_level = {xl: 'x', yl: 'y'}
+            for order in (['y0', 'x0', 'x1'], ['x0', 'y0', 'x1'],
+                          ['x1', 'x0', 'y0']):
+                for keep in ([0], [0, 1], [2, 3], [0, 1, 2, 3], [1]):
+                    n += 1
+                    base, ext = _build_manager(
+                        order, [tts[k] for k in keep], range(len(keep)))
+                    obj = _object_manager(copy.deepcopy(
+                        {k: v for k, v in base.items() if k != 'self'}))
+                    before = {r: _tt_of(base, r, names) for r in ext}
+                    out, _ = interp.run_function(
+                        f.node, {prm[0]: obj,
+                                 prm[1]: copy.deepcopy(dvars)},
+                        stubs, resolver)
+                    what = (f'integer levels x: {xl}, y: {yl}; bits '
+                            f'{order}; nodes {base["self._succ"]}, '
+                            f'referenced {sorted(ext)}')
+                    ok = (out[0] == 'return' and isinstance(
+                        out[1], tuple) and len(out[1]) == 2
+                        and isinstance(out[1][0], interp.Sym)
+                        and isinstance(out[1][0].attrs, dict)
+                        and isinstance(out[1][1], dict))
+                    if not ok:
+                        problems.setdefault('raises', (
+                            f'{what}: {out[0]} {out[1]!r}'))
+                        continue
+                    table = out[1][0].attrs.get('_succ')
+                    umap = out[1][1]
+
+                    def value(u, pt):
+                        neg = False
+                        while abs(u) != 1:
+                            if u < 0:
+                                neg = not neg
+                            t = table[abs(u)]
+                            u = t[1 + pt[by_level[t[0]]]]
+                        return (u > 0) != neg
+                    lost = [r for r in sorted(ext) if r not in umap]
+                    if lost:
+                        problems.setdefault('unmapped', (
+                            f'{what}: the referenced node(s) {lost} have '
+                            f'no MDD reference (map {umap})'))
+                        continue
+                    for r in sorted(ext):
+                        if _tt_obj(obj, r, names) != before[r]:
+                            problems.setdefault('bdd-changed', (
+                                f'{what}: the function of the referenced '
+                                f'BDD node {r} changed'))
+                    for u, r in umap.items():
+                        if u == 1 or abs(u) not in obj.attrs['_succ']:
+                            continue
+                        want_t = _tt_obj(obj, u, names)
+                        try:
+                            got = tuple(value(r, {'x': x, 'y': y})
+                                        for x, y in points)
+                        except (KeyError, IndexError, TypeError):
+                            got = None
+                        want = tuple(
+                            want_t[rows.index(bits_of(x, y))]
+                            for x, y in points)
+                        if got != want:
+                            problems.setdefault('wrong-value', (
+                                f'{what}: BDD node {u} is mapped to the '
+                                f'MDD reference {r} with the values {got} '
+                                f'over (x, y) in {points}; the BDD node '
+                                f'has {want} on the bits of these '
+                                f'(MDD nodes {table})'))
+                            break
+    except (interp.Unknown, KeyError) as e:
+        R.undecided('R-DOMAIN', f.qualname, 'conversion model', str(e))
+        return None
+    for sub, msg in sorted(problems.items()):
+        R.violation('R-DOMAIN', f'conversion-{sub}', f.qualname,
+                    'bdd_to_mdd', msg, unit=f.unit.rel, line=f.lineno)
+    if not problems:
+        R.holds('R-DOMAIN', f.qualname,
+                f'conversion model ({n} calls, with collection, '
+                'reordering and the MDD class interpreted): every '
+                'referenced node is mapped, each mapped node has the '
+                'values of its BDD node on every integer assignment, the '
+                'referenced BDD functions are unchanged')
+    return n
+
+
+def r_bdd_to_mdd(P, R):
+    n = bdd_to_mdd_model(P, R)
+    if n is not None:
+        R.floor('R-DOMAIN calls of the conversion model', n, 30)
+r_bdd_to_mdd.NAME = 'R-DOMAIN(bdd_to_mdd model)'
+
+
 def dot_model(P, R):
     """`dd.bdd._to_dot(roots, bdd)` interpreted (with `dd._utils.DotGraph`)
     on small managers: the graph it builds must show, for every node
